@@ -6,6 +6,7 @@ import (
 	"encoding/binary"
 	"hash/fnv"
 	"math/big"
+	"os"
 )
 
 // Rng is a SplitMix64 stream. Every case derives its own stream from
@@ -160,3 +161,13 @@ func HashBytes(b []byte) uint64 {
 	h.Write(b)
 	return h.Sum64()
 }
+
+// Repo is the root of the markkurossi/mpc tree under test: /repo, or
+// $VERIF_REPO for background sweeps against a copy (the registered checks
+// never set it).
+var Repo = func() string {
+	if r := os.Getenv("VERIF_REPO"); r != "" {
+		return r
+	}
+	return "/repo"
+}()
